@@ -556,3 +556,19 @@ Proof.
     + intros i Hi'. apply sumZ_ext. intros j Hj'. rewrite Ha by assumption.
       destruct ((i =? i0) && (j =? j0)); [apply D | apply Z0].
 Qed.
+
+(* ------------------------------------------------------------------ entry-point glue *)
+Theorem rebin_entry_spec (S : Scalar) (a : arr S) (c : cube S) (f : Z) :
+  rebin2_entry true a f = Err ValueError /\ rebin3_entry true c f = Err ValueError /\
+  rebin2_entry false a f = rebin2 a f /\ rebin3_entry false c f = rebin3 c f.
+Proof. repeat split. Qed.
+
+Theorem sanitize_shape_spec :
+  (forall s, sanitize_shape (ShScalar s) = [s; s]) /\ (forall l, sanitize_shape (ShSeq l) = l) /\
+  (forall a, sanitize_shape (ShSeq (sanitize_shape a)) = sanitize_shape a).
+Proof. repeat split. Qed.
+
+Theorem slice_offset_ell_spec n m :
+  slice_offset_ell EllBare = Ok (slice_offset SlEllipsis n m) /\ slice_offset_ell EllAll = Ok (0, 0) /\
+  slice_offset_ell EllOther = Err ValueError.
+Proof. repeat split. Qed.
